@@ -45,8 +45,13 @@ C(c) == commits[c]
 ParSet(c) == {C(c).par[i] : i \in DOMAIN C(c).par}
 IsMerge(c) == Len(C(c).par) > 1
 
-RECURSIVE AncIn(_, _)
-AncIn(cs, c) == IF c = 0 THEN {} ELSE {c} \cup UNION {AncIn(cs, cs[c].par[i]) : i \in DOMAIN cs[c].par}
+(* ancestors of c, c included.  Commits are numbered in creation order, a parent before its children: one pass from c down to 1
+   collects them (a recursion along the parents visits a shared ancestor once per path to it, which is exponential in the number
+   of merge commits: histories with a dozen nested merges - two remotes, three replicas, a few rounds - took TLC an hour) *)
+RECURSIVE AncWalk(_, _, _)
+AncWalk(cs, k, S) == IF k = 0 THEN S
+                     ELSE AncWalk(cs, k - 1, IF k \in S THEN S \cup {cs[k].par[i] : i \in DOMAIN cs[k].par} ELSE S)
+AncIn(cs, c) == IF c = 0 THEN {} ELSE AncWalk(cs, c, {c})
 Anc(c) == AncIn(commits, c)
 
 OpsOfIn(cs, h) == UNION {{cs[c].ops[i] : i \in DOMAIN cs[c].ops} : c \in AncIn(cs, h)}
